@@ -116,6 +116,12 @@ def draw_fcs(rng):
     return seq(rng, vals)
 
 
+def draw_fft(rng):
+    """fft_settings dicts with different key sets (all are valid numpy.fft.rfft keywords)."""
+    return {"t": "dict", "v": rng.choice([{"n": 4096}, {"n": 65536}, {"n": 32768, "norm": "ortho"},
+                                         {"norm": "backward"}, {"n": 8192, "norm": "forward"}, {"n": None}])}
+
+
 def draw_args(rng, cls):
     """Explicit constructor arguments (a random subset of the class' parameters)."""
     a = {}
@@ -150,8 +156,8 @@ def draw_args(rng, cls):
                              ("linear_triangular", 0.5), ("savitzky_and_golay", 9)])
         a["smoothing"] = {"t": "dict", "v": {"operator": op, "bandwidth": bw,
                                              "center_frequencies_in_hz": draw_fcs(rng)}}
-    if maybe(0.3):
-        a["fft_settings"] = {"t": "dict", "v": {"n": rng.choice([4096, 32768, 65536])}}
+    if maybe(0.4):
+        a["fft_settings"] = draw_fft(rng)
     if maybe(0.4):
         a["handle_dissimilar_time_steps_by"] = rng.choice(["frequency_domain_resampling",
                                                            "keeping_smallest_time_step", "keeping_majority_time_step"])
@@ -203,7 +209,7 @@ def draw_value_for(rng, attr):
     if attr == "orient_to_degrees_from_north":
         return rng.choice([0.0, 45.0, None])
     if attr == "fft_settings":
-        return rng.choice([None, {"t": "dict", "v": {"n": 8192}}])
+        return rng.choice([None, draw_fft(rng), draw_fft(rng)])
     return None
 
 
